@@ -137,7 +137,7 @@ func (c *ShipConnection) handshakeProtocol_smeProtHStateClientListenChoice(messa
 		abort = true
 	}
 
-	if msgHandshake.Formats.Format != nil && msgHandshake.Formats.Format[0] != model.MessageProtocolFormatTypeUTF8 {
+	if len(msgHandshake.Formats.Format) > 0 && msgHandshake.Formats.Format[0] != model.MessageProtocolFormatTypeUTF8 {
 		logging.Log().Debug("unsupported format")
 		abort = true
 	}
